@@ -111,8 +111,12 @@ def main():
         sh("git", "-C", "/repo", "worktree", "remove", "--force", WT)
         shutil.rmtree(WT, ignore_errors=True)
         for f in os.listdir(os.path.join(VERIF, ".build")):
-            if f.startswith("go-") or f.startswith("vfh-"):
-                os.remove(os.path.join(VERIF, ".build", f))
+            fp = os.path.join(VERIF, ".build", f)
+            if f.startswith("go-") or f.startswith("vfh-") or (f.startswith("inst-") and not f.startswith("inst-out")):
+                if os.path.isfile(fp):
+                    os.remove(fp)
+            elif f.startswith("inst-out-"):
+                shutil.rmtree(fp, ignore_errors=True)
     os.makedirs(os.path.join(VERIF, "selftest"), exist_ok=True)
     out = os.path.join(VERIF, "selftest", "RESULTS.json")
     prev = []
